@@ -14,12 +14,23 @@ import os
 from ..core import scratch_dir, rm, pmap, HarnessError
 from .. import farm
 
-FORMS = ("bare", "modattr", "alias", "wrapper")
+FORMS = ("bare", "modattr", "alias", "wrapper", "comp", "lambda", "partial")
 KINDS = ("M", "E", "P")  # memento auto, memento explicit, plain
 
 
 def ref_expr(j, form):
-    return {"bare": "n%d" % j, "modattr": "selfmod.n%d" % j, "alias": "n%d_alias" % j, "wrapper": "n%d_w" % j}[form]
+    return {"bare": "n%d" % j, "modattr": "selfmod.n%d" % j, "alias": "n%d_alias" % j, "wrapper": "n%d_w" % j}.get(form, "n%d" % j)
+
+
+def call_expr(e, form):
+    """The call of reference e in the syntactic position the form names."""
+    if form == "comp":
+        return "[%s(1, hid=hid, fnarg=fnarg) for _ in range(1)][0]" % e
+    if form == "lambda":
+        return "(lambda: %s(1, hid=hid, fnarg=fnarg))()" % e
+    if form == "partial":
+        return "functools.partial(%s, 1)(hid=hid, fnarg=fnarg)" % e
+    return "%s(1, hid=hid, fnarg=fnarg)" % e
 
 
 MODNAME = {"a": "vfg.a", "i": "vfg", "b": "vfg.b"}
@@ -60,7 +71,7 @@ def render(n, kinds, edges, forms, layout=None):
                 else:
                     e = "%s.n%d" % (MODREF[(mod, layout[j])], j)
                 out.append("    if via == 'n%d':" % j)
-                out.append("        return ['n%d', %s(1, hid=hid, fnarg=fnarg)]" % (i, e))
+                out.append("        return ['n%d', %s]" % (i, call_expr(e, forms[(i, j)])))
             out.append("    if via is None and hid is not None:")
             out.append("        return ['n%d', getattr(importlib.import_module(hid[0]), hid[1])(0)]" % i)
             out.append("    if via is None and fnarg is not None:")
@@ -287,7 +298,8 @@ def run(ctx):
     thorough = ctx.tier == "thorough"
     ctx.rule = ("all digraphs without self loops over N nodes x all kind assignments over {memento auto, memento explicit, "
                 "plain} with at least one auto memento node (N<=3 exhaustive; thorough: N=4 up to node relabelling), edge "
-                "reference forms by covering rotation over {bare, module.attr, alias, wrapper} (all assignments for N=2); per "
+                "reference forms by covering rotation over {bare, module.attr, alias, wrapper, inside a comprehension, inside a lambda, "
+                "through functools.partial} (all assignments for N=2); per "
                 "graph: transitive / direct / graph links of every memento node vs reachability, and every hidden or "
                 "argument-passed call u=>v and u->w=>v through every modifier vs the closure; graphs with N in {2,3} additionally with the "
                 "nodes spread over a.py, the package __init__.py and a sibling module. distinct = graphs.")
@@ -300,8 +312,8 @@ def run(ctx):
                 for fs in itertools.product(FORMS, repeat=len(edges)):
                     tasks.append((n, kinds, edges, tuple(zip(edges, fs))))
             else:
-                for rot in range(4 if (n == 3 and thorough) else 1):
-                    forms = tuple(((i, j), FORMS[(i + 2 * j + rot) % 4]) for (i, j) in edges)
+                for rot in range(len(FORMS) if (n == 3 and thorough) else 1):
+                    forms = tuple(((i, j), FORMS[(i + 2 * j + rot + len(edges)) % len(FORMS)]) for (i, j) in edges)
                     tasks.append((n, kinds, edges, forms))
     # the same graphs spread over the modules of one package: plain helpers in the package's __init__.py or in a sibling
     # module, memento functions other than the first in the sibling module (cross-module references are module.attr)
